@@ -262,9 +262,10 @@ var raceFrameRe = regexp.MustCompile(`(?m)^  (\S+)\(\)$`)
 // raceEnd returns the signatures of the race reports printed since the mark.
 // A signature is the unordered pair of the innermost library functions of the
 // two conflicting accesses (closure suffixes and package path stripped).
-func raceEnd(m raceMark) (n int, sigs []string, texts map[string]string) {
-	n = simrt.RaceErrors() - m.errs
-	if n == 0 {
+func raceEnd(m raceMark, atEnd int) (n int, sigs []string, texts map[string]string) {
+	// only reports printed while the run was under the scheduler's control
+	n = atEnd - m.errs
+	if n <= 0 {
 		return 0, nil, nil
 	}
 	text := ""
@@ -274,9 +275,14 @@ func raceEnd(m raceMark) (n int, sigs []string, texts map[string]string) {
 		}
 	}
 	texts = map[string]string{}
+	seen := 0
 	for _, rep := range strings.Split(text, "WARNING: DATA RACE") {
 		if !strings.Contains(rep, " by goroutine ") {
 			continue
+		}
+		seen++
+		if seen > n {
+			break
 		}
 		// two access stacks: first block and the "Previous ..." block
 		parts := strings.SplitN(rep, "\n\nPrevious ", 2)
@@ -327,7 +333,7 @@ func runSim(t *testing.T, cr *CaseResult, prop string, cfg simrt.Config, root fu
 	m := raceBegin()
 	res := simrt.Run(t, cfg, root)
 	cr.absorb(&res)
-	n, sigs, texts := raceEnd(m)
+	n, sigs, texts := raceEnd(m, res.RaceAtEnd)
 	if n > 0 {
 		cr.count("race_reports", int64(n))
 		for _, s := range sigs {
